@@ -21,6 +21,7 @@ import (
 	"net/http"
 	"net/http/httptest"
 	"os"
+	"os/signal"
 	"path/filepath"
 	"runtime"
 	"sort"
@@ -347,6 +348,7 @@ type step struct {
 	Pws     []string `json:"pws"`
 	Vias    []string `json:"vias"`
 	Quiet   bool     `json:"quiet"`
+	Watch   bool     `json:"watch"` // an observer scans the base directory all the time: never two files for one user
 	// hup
 	Cfg string `json:"cfg"`
 }
@@ -396,6 +398,7 @@ type runner struct {
 	masterBase string
 	masterDown int32
 	masterHits int32
+	oldFsize   syscall.Rlimit
 }
 
 func (r *runner) materialise(dir string) {
@@ -912,6 +915,29 @@ func (r *runner) run(dir string) scenResult {
 			os.RemoveAll(filepath.Join(r.base, ".tmp"))
 			os.WriteFile(filepath.Join(r.base, ".tmp"), []byte("not a directory\n"), 0600)
 			atomic.StoreInt32(&ioFaultWindow, 1)
+		case "checkdup": // at rest (all calls have returned): no user has two files
+			ents, _ := os.ReadDir(r.base)
+			have := map[string]bool{}
+			for _, e := range ents {
+				have[e.Name()] = true
+			}
+			for n := range have {
+				if strings.HasSuffix(n, ".user") && have[strings.TrimSuffix(n, ".user")+".admin"] {
+					m := base("dupseen")
+					m["u"] = strings.TrimSuffix(n, ".user")
+					rec.add(m)
+				}
+			}
+		case "fsizelimit": // writes beyond s.N bytes of any file fail with EFBIG (a full disk / quota seen from inside the process)
+			signal.Ignore(syscall.SIGXFSZ)
+			var old syscall.Rlimit
+			syscall.Getrlimit(syscall.RLIMIT_FSIZE, &old)
+			r.oldFsize = old
+			syscall.Setrlimit(syscall.RLIMIT_FSIZE, &syscall.Rlimit{Cur: uint64(s.N), Max: old.Max})
+			atomic.StoreInt32(&ioFaultWindow, 1)
+		case "fsizeunlimit":
+			syscall.Setrlimit(syscall.RLIMIT_FSIZE, &r.oldFsize)
+			atomic.StoreInt32(&ioFaultWindow, 0)
 		case "fixtmp":
 			os.Remove(filepath.Join(r.base, ".tmp"))
 			atomic.StoreInt32(&ioFaultWindow, 0)
@@ -1011,6 +1037,45 @@ func (r *runner) free() {
 
 // load: seeded random concurrent clients, no gates.
 func (r *runner) load(s step) {
+	if s.Watch {
+		stop := make(chan struct{})
+		seen := make(chan string, 1)
+		go func() {
+			for {
+				select {
+				case <-stop:
+					return
+				default:
+				}
+				ents, _ := os.ReadDir(r.base)
+				have := map[string]bool{}
+				for _, e := range ents {
+					have[e.Name()] = true
+				}
+				for n := range have {
+					if strings.HasSuffix(n, ".user") && have[strings.TrimSuffix(n, ".user")+".admin"] {
+						select {
+						case seen <- strings.TrimSuffix(n, ".user"):
+						default:
+						}
+					}
+				}
+			}
+		}()
+		defer func() {
+			close(stop)
+			select {
+			case u := <-seen:
+				m := base("dupseen")
+				m["u"] = u
+				rec.mu.Lock()
+				m["seq"] = len(rec.events) + 1
+				rec.events = append(rec.events, m)
+				rec.mu.Unlock()
+			default:
+			}
+		}()
+	}
 	if s.Quiet {
 		atomic.StoreInt32(&recQuiet, 1)
 		defer atomic.StoreInt32(&recQuiet, 0)
